@@ -725,6 +725,10 @@ func (c *FnCtx) specCall(env *SpecEnv, x *ast.CallExpr) *Val {
 				}
 			}
 			c.refs = append(c.refs, r)
+			// and beyond the allocation frontier of the state in which the call was made
+			if env.old != nil && env.old.st != nil && env.old.st.alloc != "" && env.st != nil && env.st.alloc != "" && env.old.st.alloc != env.st.alloc {
+				t = tAnd(t, tApp(">", r, env.old.st.alloc), tApp("<=", r, env.st.alloc))
+			}
 		}
 		return &Val{T: t, S: SBool}
 	}
